@@ -118,6 +118,21 @@ def gen_teams(rng, stratum, beta, n=None, maxsize=8):
             top = (i == 0)
             teams.append([((rng.uniform(14, 20) if top else rng.uniform(-20, -8)) * beta, rng.uniform(0.05, 1.0) * beta) for _ in range(sz)])
         rng.shuffle(teams)
+    elif stratum == "newcomers":
+        # new players hold the default rating: equal (mu, sigma) within a team and across teams, next to a few established ones
+        dflt = (25.0 * s, 25.0 / 3.0 * s)
+        alt = (rng.gauss(25, 6) * s, rng.uniform(1, 9) * s)
+        for _ in range(n):
+            teams.append([dflt if rng.random() < 0.7 else (alt if rng.random() < 0.6 else (rng.gauss(25, 6) * s, rng.uniform(1, 9) * s))
+                          for _ in range(rng.randint(1, min(4, maxsize)))])
+    elif stratum == "bigsum":
+        # few large teams of settled players whose summed mu is a large multiple of c (exp(theta/c) up to e^113, far from overflow)
+        n = min(n, rng.randint(2, 3))
+        sz = rng.randint(6, 8)
+        for i in range(n):
+            lo, hi = (15, 20) if i == 0 or rng.random() < 0.4 else rng.choice([(5, 14), (10, 19), (-20, -12)])
+            teams.append([(rng.uniform(lo, hi) * beta, beta * 10 ** rng.uniform(-4, -1.3)) for _ in range(sz)])
+        rng.shuffle(teams)
     elif stratum == "lowedge":
         # large equal-size teams of settled players at the low edge of the range: exp(theta/c) is tiny
         sz = rng.randint(4, 8)
@@ -140,7 +155,7 @@ def gen_teams(rng, stratum, beta, n=None, maxsize=8):
     return teams
 
 
-STRATA = ["typical", "typical", "wide", "corners", "mismatch", "identical", "equalsize", "floor", "lowedge", "lopsided"]
+STRATA = ["typical", "typical", "wide", "corners", "mismatch", "identical", "equalsize", "floor", "lowedge", "lopsided", "bigsum", "newcomers"]
 
 
 def gen_config(rng, default_bias=0.4):
